@@ -13,7 +13,7 @@ CONSTANTS
   Fat = TRUE
   MaxSegs = 1000
   MaxCmds = 3
-  MaxCur = 1
+  MaxCur = 2
   MaxCps = 0
   MaxTotCmds = 1000
   MaxTotUps = 1000
